@@ -250,6 +250,7 @@ ITER_PATTERNS = ['f', 'b', 'fb', 'bf', 'ffb', 'bbf']
 
 
 class C15(Property):
+    fuzz_target = 'fuzz_lines'
     id = 'C15'
     configs = ('A',)
     bytes_per_case = 256
